@@ -9,11 +9,21 @@ stdin : JSON list of cases
            "style_args": {...}, "term": str, "kitty_version": [..],
            "hide_cursor": bool, "echo_input": bool,         (new API)
            "pad": [left, top, right, bottom], "size_wh": [w, h], "handler": bool, "loops": int},
-   "fault": null | {"k": int, "kind": "KI" | "Exc", "j": int | null, "after": bool}}
+   "fault": null | {"k": int, "kind": "KI" | "Exc", "j": int | null, "after": bool},
+   "async": absent | {"k": int | null, "kind": "KI" | "Exc", "record": bool},      (round 4)
+   "srcfault": absent | "removed" | "garbage" | "directory"}                         (round 4)
      k: index among the FAULTABLE calls (stream write -- one per write() call, including the
         empty strings print() writes for sep/end --, stream flush, sleep, frame render), in
         call order, clean-up included;  j: for a write, number of characters delivered before
         it raises (0 = raises before, len = after the whole string);  after: for the others.
+  async (harness/impl/asyncfault.py): an ASYNCHRONOUS exception (KeyboardInterrupt, or AsyncError -- an
+        OSError -- for "Exc") is raised at the k-th 'line' event executed inside term_image code during
+        draw() (k = null: counting run; "record": also return, per line event, the chain of term_image
+        call sites from draw() down to depth 3, for the stratified choice of k).  The tracked calls are
+        still recorded (no synchronous fault is injected: "fault" must be null).  The driver decides FROM
+        THE SOURCE TEXT (ast; see `classify`) whether the position lies inside clean-up code.
+  scn.source = "file": the old-API image is created with from_file() from a file written by the driver;
+  srcfault: what happens to that file between the construction of the image and draw().
 stdout: JSON list of
   {"calls": [[class, text-or-null, in_handler], ...]    every faultable call (fault-free shape of THIS run)
    "events": [[class, arg, f], ...]    trace for the skeleton judgement (one event per print(); writes
@@ -22,24 +32,35 @@ stdout: JSON list of
    "master_ok": bool                   the bytes read from the pty master are exactly the segments (LF -> CR LF)
    "out": 0 | 1 | 2, "exc": repr, "termios_same": bool, "finalized": bool | null,
    "size_same": bool, "seek_same": bool, "started": bool (a frame render call was reached before the fault),
-   "hit": [class, text, j] | null, "abort": str | null}
+   "hit": [class, text, j] | null, "abort": str | null,
+   async runs: "acount": line events counted, "afired": bool, "astack": [[file, line, function], ...] (term_image
+   frames, draw() first), "cleanup": str | null (why the position is clean-up code), "strict": bool (draw()'s own
+   frame was inside the body of a try ... finally), "groups"/"group_keys" (record), "final_released": bool (render
+   data finalized once the exception and the driver's references are gone: RenderData.__del__)}
 """
 import implenv  # noqa: F401  (sys.path, stubs)
 from implenv import tests
 
+import ast
+import atexit
 import builtins
+import gc
 import io
 import json
 import os
 import pty
 import random
 import select as _select
+import shutil
+import tempfile
 import signal
 import sys
 import termios
 import time
 
 from PIL import Image
+
+from asyncfault import AsyncFault, in_package
 
 import term_image.utils as U
 from term_image import _ctlseqs as ctlseqs
@@ -79,6 +100,207 @@ class Abort(BaseException):
 
 def norm(a):
     return [int(x) for x in a[:6]] + [[x if isinstance(x, int) else x[0] for x in a[6]]]
+
+
+# ------------------------------------------------------------------ asynchronous faults (round 4)
+#
+# "interrupted ... at any point before its own clean-up starts": WHERE an asynchronous exception
+# landed is decided from the source text, not by trial.  At the moment of the fault the chain of
+# term_image frames from draw() down to the interrupted line is recorded; a position is CLEAN-UP
+# CODE (outside the property) iff for SOME frame of that chain
+#   * the frame's current line lies lexically inside an `except ...:` clause (header included: the
+#     exception is already being handled) or inside the body of a `finally:` of the frame's own
+#     function (nested function definitions are separate functions) -- exactly the blocks that
+#     coq/lib/Eff.v `protect` marks in the translated skeletons; or
+#   * the frame's function is one of CLEANUP_FUNCS: the library's clean-up entry points, which
+#     belong to a sub-operation wherever they are called from (an iterator's close(), finalizers,
+#     `__exit__`, the interrupt handlers themselves).
+# `strict`: the OUTERMOST frame (draw() itself) is inside the body / else part of a `try` that has a
+# `finally`: from there on the render data must be finalized when draw() raises; before it (between
+# the creation of the render data and the `try:` line) finalization may be left to RenderData.__del__.
+
+CLEANUP_FUNCS = {"__del__", "__exit__", "close", "finalize", "_finalize_render_data_", "_close_image",
+                 "_handle_interrupted_draw", "_handle_interrupted_draw_"}
+_FUNCS = {}   # file -> [(first line, last line, name, clean-up spans, protected spans, lines of `try:`)]
+
+
+class AsyncError(OSError):
+    """the asynchronous non-KeyboardInterrupt exception"""
+
+    def __init__(self):
+        super().__init__(5, "injected asynchronous fault")
+
+
+def _functions(filename):
+    fs = _FUNCS.get(filename)
+    if fs is not None:
+        return fs
+    with open(filename, encoding="utf-8") as f:
+        tree = ast.parse(f.read())
+    defs = (ast.FunctionDef, ast.AsyncFunctionDef, ast.Lambda)
+    fs = []
+    for node in ast.walk(tree):
+        if not isinstance(node, defs):
+            continue
+        cleanup, prot, trylines = [], [], set()
+
+        def visit(n):
+            for ch in ast.iter_child_nodes(n):
+                if isinstance(ch, defs + (ast.ClassDef,)):
+                    continue
+                if isinstance(ch, (ast.Try, getattr(ast, "TryStar", ast.Try))):
+                    trylines.add(ch.lineno)
+                    for h in ch.handlers:
+                        cleanup.append((h.lineno, h.end_lineno, "except clause"))
+                    if ch.finalbody:
+                        cleanup.append((ch.finalbody[0].lineno, ch.finalbody[-1].end_lineno, "finally block"))
+                        prot.append((ch.body[0].lineno, (ch.orelse or ch.body)[-1].end_lineno))
+                visit(ch)
+        visit(node)
+        first = min([node.lineno] + [d.lineno for d in getattr(node, "decorator_list", [])])
+        fs.append((first, node.end_lineno, getattr(node, "name", "<lambda>"), cleanup, prot, trylines))
+    _FUNCS[filename] = fs
+    return fs
+
+
+def _function_at(filename, lineno, name):
+    best = None
+    for f in _functions(filename):
+        if f[0] <= lineno <= f[1] and f[2] == name and (best is None or f[0] >= best[0]):
+            best = f
+    return best
+
+
+def chain(frame):
+    """the term_image frames from draw() (first) down to `frame`"""
+    out = []
+    while frame is not None:
+        if in_package(frame):
+            out.append((os.path.realpath(frame.f_code.co_filename), frame.f_lineno, frame.f_code.co_name))
+        frame = frame.f_back
+    out.reverse()
+    return out
+
+
+def classify(stack):
+    """(why the position is clean-up code | None, strict)"""
+    why = None
+    for filename, lineno, name in stack:
+        if name in CLEANUP_FUNCS:
+            why = why or f"inside {name}()"
+            continue
+        f = _function_at(filename, lineno, name)
+        if f is None:
+            continue  # module / class level code, comprehensions of 3.11-: no try statement of their own is looked at
+        for a, b, what in f[3]:
+            if a <= lineno <= b:
+                why = why or f"{what} of {name}() (line {lineno})"
+    if stack:
+        # CPython 3.12 compiles `try:` to a NOP that carries the line number but lies OUTSIDE the exception table
+        # of the enclosing try statements (`try: a() \n try: b() ... finally: c()`: dis shows the table entry of the
+        # outer try ending before the inner `try:`'s NOP and the next one starting after it): an exception raised
+        # by the trace function on that line event skips the enclosing `finally`.  No signal can be
+        # delivered there (the interpreter polls for signals at calls, function entries and backward jumps only),
+        # so the line of a `try:` keyword is not a fault position.
+        filename, lineno, name = stack[-1]
+        f = _function_at(filename, lineno, name)
+        if f is not None and lineno in f[5]:
+            why = why or f"the `try:` line {lineno} of {name}() (no interrupt can be delivered at its NOP)"
+    strict = False
+    if stack:
+        filename, lineno, name = stack[0]
+        f = _function_at(filename, lineno, name)
+        strict = f is not None and any(a <= lineno <= b for a, b in f[4])
+    return why, strict
+
+
+class StackFault(AsyncFault):
+    """AsyncFault that keeps the chain of frames of the fault position (and, when recording, the
+    call-site prefix of every line event)."""
+
+    def __init__(self, k, exc, record=False, depth=3):
+        super().__init__(k=k, exc=exc)
+        self.record = record
+        self.depth = depth
+        self.stack = None
+        self.keys = {}
+        self.groups = []
+
+    def _local(self, frame, event, arg):
+        if event == "line":
+            self.count += 1
+            if self.record:
+                st = chain(frame)
+                key = " > ".join(f"{n}:{ln}" for _, ln, n in st[: self.depth])
+                if len(st) > self.depth:
+                    key += " > .. " + st[-1][2]
+                self.groups.append(self.keys.setdefault(key, len(self.keys)))
+            if self.k is not None and self.count == self.k and not self.fired:
+                self.fired = True
+                self.stack = chain(frame)
+                self.where = (os.path.basename(frame.f_code.co_filename), frame.f_lineno, frame.f_code.co_name)
+                raise self.exc()
+        return self._local
+
+
+RELEASED = {}   # id(render data) -> finalized when its __del__ ran
+R_DEL = RenderData.__del__
+
+
+def p_del(self):
+    R_DEL(self)
+    try:
+        RELEASED[id(self)] = bool(self.finalized)
+    except Exception:
+        RELEASED[id(self)] = False
+
+
+RenderData.__del__ = p_del
+
+TMPDIR = None
+WARM = set()
+
+
+def source_file(scn):
+    """a file with the scenario's image (written once per process)"""
+    global TMPDIR
+    if TMPDIR is None:
+        TMPDIR = tempfile.mkdtemp(prefix="c07-src-")
+        atexit.register(shutil.rmtree, TMPDIR, True)
+    n = scn.get("frames", 1)
+    path = os.path.join(TMPDIR, f"img-{os.getpid()}-{len(os.listdir(TMPDIR))}." + ("png" if n == 1 else "gif"))
+    pil = make_pil(scn)
+    pil.fp.seek(0)
+    with open(path, "wb") as f:
+        f.write(pil.fp.read())
+    pil.close()
+    return path
+
+
+class SourceFault:
+    """what happens to the source file of a file-sourced image between its construction and draw()"""
+
+    def __init__(self, path, how):
+        self.path, self.how = path, how
+
+    def __enter__(self):
+        if self.how:
+            os.rename(self.path, self.path + ".away")
+            if self.how == "garbage":
+                with open(self.path, "wb") as f:
+                    f.write(b"this is not an image\n" * 8)
+            elif self.how == "directory":
+                os.mkdir(self.path)
+        return self
+
+    def __exit__(self, *a):
+        if self.how:
+            if self.how == "garbage":
+                os.unlink(self.path)
+            elif self.how == "directory":
+                os.rmdir(self.path)
+            os.rename(self.path + ".away", self.path)
+        return False
 
 
 class Inject:
@@ -404,6 +626,14 @@ def run_case(case):
     global INJ
     scn = case["scn"]
     api = scn["api"]
+    asy = case.get("async")
+    if asy is not None:
+        # the k-th line event must be the same one in every process: run the scenario once, untraced, so that
+        # the library's process-wide caches are in the same (warm) state for the counting and for the faulted run
+        wkey = json.dumps(scn, sort_keys=True)
+        if wkey not in WARM:
+            WARM.add(wkey)
+            run_case({"scn": scn, "fault": None})
     R_TCSETATTR(SLAVE, termios.TCSANOW, BASE)
     termios.tcflush(SLAVE, termios.TCIOFLUSH)
     while True:
@@ -420,11 +650,17 @@ def run_case(case):
         KittyImage._supported = ITerm2Image._supported = True
         KittyImage._KITTY_VERSION = tuple(scn.get("kitty_version", (0, 30, 0)))
         KittyImage._TERM = ITerm2Image._TERM = scn.get("term", "")
-        pil = make_pil(scn)
-        if scn.get("size", "dynamic") == "fixed":
-            obj = cls(pil, width=scn.get("width", 4))
+        src_path = None
+        if scn.get("source") == "file":
+            src_path = source_file(scn)
+            make = lambda **kw: cls.from_file(src_path, **kw)  # noqa: E731
         else:
-            obj = cls(pil)
+            pil = make_pil(scn)
+            make = lambda **kw: cls(pil, **kw)  # noqa: E731
+        if scn.get("size", "dynamic") == "fixed":
+            obj = make(width=scn.get("width", 4))
+        else:
+            obj = make()
             obj.size = ImgSize[scn.get("size_enum", "FIT")]
         if scn.get("seek"):
             obj.seek(scn["seek"])
@@ -459,8 +695,19 @@ def run_case(case):
         real_handler = cls._handle_interrupted_draw
         cls._handle_interrupted_draw = staticmethod(lambda: INJ.handler(real_handler) if INJ is not None else real_handler())
     sys.stdout = Out()
+    af = None
+    if asy is not None:
+        af = StackFault(asy.get("k"), KeyboardInterrupt if asy.get("kind", "KI") == "KI" else AsyncError,
+                        record=bool(asy.get("record")))
+    srcf = SourceFault(src_path if api == "old" else None, case.get("srcfault") if api == "old" and src_path else None)
+    RELEASED.clear()
     try:
         try:
+            srcf.__enter__()
+            if af is not None:
+                gc.collect()
+                gc.disable()
+                af.__enter__()
             if api == "old":
                 kw = dict(scn.get("style_args", {}))
                 if scn.get("frames", 1) > 1:
@@ -481,6 +728,10 @@ def run_case(case):
         except Exception as e:
             res["out"], res["exc"] = 2, repr(e)[:200]
     finally:
+        if af is not None:
+            af.__exit__()
+            gc.enable()
+        srcf.__exit__()
         inj.active = False
         sys.stdout = REAL_STDOUT
         termios.tcgetattr, termios.tcsetattr = R_TCGETATTR, R_TCSETATTR
@@ -517,8 +768,25 @@ def run_case(case):
     else:
         res["seek_same"] = obj.tell() == seek0
         res["seek"] = [seek0, obj.tell()]
-        res["finalized"] = bool(obj.render_data_seen) and all(rd.finalized for rd in obj.render_data_seen)
+        # (asynchronous faults may land before any render data exists)
+        res["finalized"] = (bool(obj.render_data_seen) or asy is not None) and all(rd.finalized for rd in obj.render_data_seen)
         res["n_render_data"] = len(obj.render_data_seen)
+        # ... and once nobody but the library refers to the render data any more (the exception is gone by now)
+        ids = [(id(rd), rd.finalized) for rd in obj.render_data_seen]
+        obj.render_data_seen.clear()
+        gc.collect()
+        res["final_released"] = all(fin or RELEASED.get(i, False) for i, fin in ids)
+    if af is not None:
+        root = os.path.join(os.path.realpath(os.environ.get("VERIF_REPO", "/repo")), "src", "term_image") + os.sep
+        res["acount"], res["afired"] = af.count, af.fired
+        if af.fired:
+            res["astack"] = [[f[len(root):] if f.startswith(root) else f, ln, n] for f, ln, n in af.stack]
+            res["cleanup"], res["strict"] = classify(af.stack)
+            # the exception counts as injected only if it is the one that came out / was swallowed: always, by construction
+            res["injected"] = True
+        if af.record:
+            res["groups"] = af.groups
+            res["group_keys"] = sorted(af.keys, key=af.keys.get)
     try:
         obj.close()
     except Exception:
